@@ -300,41 +300,15 @@ of the negative-timestamp workaround overflows -/
 theorem nanos_opt_spec (dt : NaiveDT) (h : NDTInv dt) (hs : TStrict dt.time) :
     NaiveDT.timestamp_nanos_opt dt =
       .ok (if -9223372036854775808 ≤ instNs dt ∧ instNs dt ≤ 9223372036854775807 then some (instNs dt) else none) := by
-  have hb := instSecs_range dt h
-  rw [ts_min_val, ts_max_val] at hb
   have hts := timestamp_spec dt h
-  have h60 : instSecs dt % 60 = dt.time.secs % 60 := by unfold instSecs; omega
-  obtain ⟨⟨_, _, t3, t4⟩, hl⟩ := hs
   unfold NaiveDT.timestamp_nanos_opt NaiveDT.timestamp_subsec_nanos Time.nanosecond instNs
   rw [hts]
   simp only [Res.bind]
   generalize instSecs dt = s at *
   generalize dt.time.frac = f at *
-  by_cases hneg : s < 0
-  · rw [if_pos hneg, ckI64_ok (by omega) (by omega)]
-    simp only []
-    rw [ckI64_ok (by omega) (by omega)]
-    simp only []
-    by_cases h1 : -9223372036854775808 ≤ (s + 1) * 1000000000 ∧ (s + 1) * 1000000000 ≤ 9223372036854775807
-    · rw [optI64_some h1.1 h1.2]
-      simp only []
-      by_cases h2 : -9223372036854775808 ≤ s * 1000000000 + f ∧ s * 1000000000 + f ≤ 9223372036854775807
-      · rw [optI64_some (by omega) (by omega), if_pos h2]
-        congr 2; omega
-      · rw [optI64_none (by omega), if_neg h2]
-    · rw [optI64_none (by omega)]
-      simp only []
-      rw [if_neg (by omega)]
-  · rw [if_neg hneg]
-    by_cases h1 : s * 1000000000 ≤ 9223372036854775807
-    · rw [optI64_some (by omega) h1]
-      simp only []
-      by_cases h2 : -9223372036854775808 ≤ s * 1000000000 + f ∧ s * 1000000000 + f ≤ 9223372036854775807
-      · rw [optI64_some h2.1 h2.2, if_pos h2]
-      · rw [optI64_none (by omega), if_neg h2]
-    · rw [optI64_none (by omega)]
-      simp only []
-      rw [if_neg (by omega)]
+  by_cases h2 : -9223372036854775808 ≤ s * 1000000000 + f ∧ s * 1000000000 + f ≤ 9223372036854775807
+  · rw [optI64_some h2.1 h2.2, if_pos h2]
+  · rw [optI64_none (by omega), if_neg h2]
 
 /-! ### `SystemTime` -/
 
